@@ -734,6 +734,12 @@ class VCtx(_mpc.BaseContext):
 
     _name = "virtual"
 
+    def __init__(self, fail_start_at=None):
+        super().__init__()
+        # the `fail_start_at`-th Process.start() of this context raises (fork/spawn can fail: EAGAIN, ENOMEM, pickling)
+        self.fail_start_at = fail_start_at
+        self.n_started = 0
+
     def Queue(self, maxsize=0):
         return VQueue(maxsize, mp=True)
 
@@ -744,7 +750,19 @@ class VCtx(_mpc.BaseContext):
         return VEvent()
 
     def Process(self, *a, **k):
-        return VProcess(*a, **k)
+        p = VProcess(*a, **k)
+        if self.fail_start_at is not None:
+            ctx, real_start = self, p.start
+
+            def start():
+                i = ctx.n_started
+                ctx.n_started += 1
+                if i == ctx.fail_start_at:
+                    raise OSError("planned failure of Process.start()")
+                return real_start()
+
+            p.start = start
+        return p
 
     def get_context(self, method=None):
         return self
